@@ -188,6 +188,21 @@ CHECKS.update({
     ),
 })
 
+CHECKS.update({
+    "C18": dict(
+        text="Lean theorems: every regular expression the library compiles is translated on every run (CPython's own parser, classes emitted "
+             "extensionally under the pattern's flags) into a term of Model/Re.lean, whose semantics is a backtracking matcher (runs = list of "
+             "successes, work = size of the complete search tree). For each of the 11 patterns PolyBounded is proved with degree ≤ 3 (the three "
+             "description patterns: 3; attribute pattern and NOIDLEN: 2; the rest: 0), every_pattern_bounded covers the regenerated list, sub_cost "
+             "lifts to re.sub, and the pre-repair nested repetition is proved exponential. Each proof starts from an rfl equation between the "
+             "regenerated term and named sub-expressions, so ANY change of a pattern breaks an obligation; the search (model step counts of pumped "
+             "inputs, timing of the real parser on adversarial families in a killable child) then decides. Not covered by a theorem: constants of "
+             "CPython's engine and the hand-written scanners (filter loops, receive re-parse) — those are timed only.",
+        technique="Lean 4 proof (cost calculus for backtracking search trees; per-pattern bounds on translated regexes) + translator + timing search",
+        ref="DESIGN.md STATUS and §4 C18",
+    ),
+})
+
 NOT_YET = {
 }
 
